@@ -11,6 +11,9 @@ pub struct FnSig {
     pub params: Vec<(String, Ty)>,
     pub ret: Ty,
     pub fallible: bool,
+    /// builder L (state passing): names of the `&mut` parameters (`self` included), in parameter
+    /// order; the Lean function returns `ret × their new values` (see `ret_shape`)
+    pub muts: Vec<String>,
 }
 
 #[derive(Default)]
@@ -27,6 +30,16 @@ pub struct Registry {
     /// Lean names of the helper functions translated because a selected function calls them
     /// (nested fns, private module-level helpers) in the unit being emitted
     pub helpers: std::cell::RefCell<Vec<String>>,
+    /// builder L: the parsed files of the unit (methods called on `self` are translated on demand)
+    pub files: Option<std::rc::Rc<Vec<File>>>,
+    /// builder L: methods translated on demand ("Type::method" -> signature), and those in progress
+    pub dyn_fns: std::cell::RefCell<HashMap<String, FnSig>>,
+    pub dyn_stack: std::cell::RefCell<Vec<String>>,
+    /// builder L: enum name -> variants with tuple payloads
+    pub enum_data: HashMap<String, Vec<(String, Vec<Ty>)>>,
+    /// builder L: statements the unit keeps abstract: (needle in the statement's source, Lean function,
+    /// expressions read, variables written)
+    pub abstract_stmts: Vec<(String, String, Vec<String>, Vec<String>)>,
 }
 
 pub fn int_ty(name: &str) -> Option<&'static str> {
@@ -74,6 +87,10 @@ pub struct FnTr<'a> {
     pub fn_prefix: String,
     pub local_fns: HashMap<String, FnSig>,
     pub extra_defs: Vec<String>,
+    /// builder L: the `&mut` parameters of the function being translated (state-passing translation)
+    pub muts: Vec<String>,
+    /// builder L: generic type parameters bounded by a trait the unit models as a struct (`M: Trait`)
+    pub tparams: HashMap<String, Ty>,
 }
 
 type Env = HashMap<String, Ty>;
@@ -98,8 +115,40 @@ impl<'a> FnTr<'a> {
             Type::Path(tp) => {
                 let last = tp.path.segments.last().unwrap();
                 let name = last.ident.to_string();
+                // builder L: a qualified name (`region::Configuration`) may be aliased as a whole
+                if tp.path.segments.len() >= 2 {
+                    if let Some(a) = self.reg.aliases.get(&path_str(&tp.path)) {
+                        return Ok(a.clone());
+                    }
+                }
                 if let Some(i) = int_ty(&name) {
                     return Ok(Ty::Int(i));
+                }
+                if tp.path.segments.len() == 1 {
+                    if let Some(t) = self.tparams.get(&name) {
+                        return Ok(t.clone());
+                    }
+                }
+                // builder L: `heapless::Vec<T, CAP>` — a list with a capacity
+                if name == "Vec" {
+                    if let PathArguments::AngleBracketed(ab) = &last.arguments {
+                        let args: Vec<&GenericArgument> = ab.args.iter().collect();
+                        if args.len() == 2 {
+                            if let GenericArgument::Type(el) = args[0] {
+                                let el = self.ty(el)?;
+                                let cap = match args[1] {
+                                    GenericArgument::Type(Type::Path(cp)) => {
+                                        let cn = cp.path.segments.last().unwrap().ident.to_string();
+                                        self.reg.consts.get(&cn).map(|(_, l)| l.clone()).ok_or(format!("Vec capacity {} is not a known constant", cn))?
+                                    }
+                                    GenericArgument::Const(Expr::Lit(ExprLit { lit: Lit::Int(i), .. })) => i.base10_digits().to_string(),
+                                    _ => return Err("unsupported Vec capacity".into()),
+                                };
+                                return Ok(Ty::HVec(Box::new(el), cap));
+                            }
+                        }
+                    }
+                    return Err("unsupported Vec type".into());
                 }
                 if name == "bool" {
                     return Ok(Ty::Bool);
@@ -157,6 +206,30 @@ impl<'a> FnTr<'a> {
         let mut st: Stmts = vec![];
         for (i, s) in stmts.iter().enumerate() {
             let last = i + 1 == stmts.len();
+            // builder L: statements of features the harness does not build with are not there
+            if stmt_cfg_disabled(s) {
+                continue;
+            }
+            // builder L: a statement the unit declares abstract (an iterator pipeline, …): an uninterpreted
+            // function of what it reads, assigned to what it writes
+            if !self.reg.abstract_stmts.is_empty() && !matches!(s, Stmt::Expr(Expr::If(_), _) | Stmt::Expr(Expr::Match(_), _) | Stmt::Expr(Expr::Block(_), _)) {
+                let text: String = quote::quote!(#s).to_string().chars().filter(|c| !c.is_whitespace()).collect();
+                if let Some((_, lean, reads, writes)) = self.reg.abstract_stmts.iter().find(|(n, _, _, _)| text.contains(n.as_str())).cloned() {
+                    let mut args = vec![];
+                    for r in &reads {
+                        let e: Expr = syn::parse_str(r).map_err(|e| format!("abstract statement: {}", e))?;
+                        let (t, _) = self.ex(&e, env, &mut st, None)?;
+                        args.push(paren(&t));
+                    }
+                    for w in &writes {
+                        if !env.contains_key(w) {
+                            return Err(format!("abstract statement writes unknown variable {}", w));
+                        }
+                    }
+                    st.push((tuple_of(&writes), Rhs::Pure(format!("{} {}", lean, args.join(" ")))));
+                    continue;
+                }
+            }
             match s {
                 Stmt::Local(l) => {
                     let init = l.init.as_ref().ok_or("let without init")?;
@@ -221,6 +294,7 @@ impl<'a> FnTr<'a> {
                     env.insert(c.ident.to_string(), ty);
                     st.push((name, Rhs::Pure(term)));
                 }
+                Stmt::Item(Item::Use(_)) => {}
                 Stmt::Item(_) => return Err("unsupported nested item".into()),
                 Stmt::Macro(m) => {
                     let name = path_str(&m.mac.path);
@@ -233,15 +307,61 @@ impl<'a> FnTr<'a> {
                     return Err(format!("unsupported macro statement {}", name));
                 }
                 Stmt::Expr(e, semi) => {
-                    if last && semi.is_none() {
+                    if last && semi.is_none() && !(self.ret == Ty::Unit && !self.muts.is_empty()) {
                         let tail = self.tail_expr(e, env, &mut st)?;
                         return Ok(Seq { stmts: st, tail });
                     }
                     match e {
                         Expr::Return(r) => {
-                            let e = r.expr.as_ref().ok_or("return without value")?;
+                            let e = match r.expr.as_ref() {
+                                Some(e) => e,
+                                None if self.ret == Ty::Unit => return Ok(Seq { stmts: st, tail: Tail::Val("()".into()) }),
+                                None => return Err("return without value".into()),
+                            };
                             let tail = self.tail_expr(e, env, &mut st)?;
                             return Ok(Seq { stmts: st, tail });
+                        }
+                        // builder L: a statement-level `if` / `match` / block one of whose branches leaves the
+                        // function: the rest of the block continues each branch (continuation duplicated)
+                        Expr::If(ei) if !self.muts.is_empty() && contains_return(e) => {
+                            let rest = &stmts[i + 1..];
+                            let then_stmts = splice(&ei.then_branch.stmts, rest, env)?;
+                            let else_stmts = match &ei.else_branch {
+                                None => rest.to_vec(),
+                                Some((_, eb)) => match &**eb {
+                                    Expr::Block(b) => splice(&b.block.stmts, rest, env)?,
+                                    other => splice(&[Stmt::Expr(other.clone(), Some(Default::default()))], rest, env)?,
+                                },
+                            };
+                            let mut env_e = env.clone();
+                            let else_seq = self.block_tail(&else_stmts, &mut env_e)?;
+                            let tail = self.if_chain(&ei.cond, env, &mut |this: &mut Self, env_t: &mut Env| this.block_tail(&then_stmts, env_t), else_seq, &mut st)?;
+                            return Ok(Seq { stmts: st, tail });
+                        }
+                        Expr::Match(m) if !self.muts.is_empty() && contains_return(e) => {
+                            let rest = &stmts[i + 1..];
+                            let (sc, sty) = self.ex(&m.expr, env, &mut st, None)?;
+                            if matches!(sty, Ty::Int(_) | Ty::IntLit) || m.arms.iter().any(|a| a.guard.is_some()) {
+                                return Err("statement-level match with `return`: integer scrutinee / guards not supported".into());
+                            }
+                            let mut arms = vec![];
+                            for arm in &m.arms {
+                                let mut env_a = env.clone();
+                                let p = self.pat(&arm.pat, &sty, &mut env_a)?;
+                                let body: Vec<Stmt> = match &*arm.body {
+                                    Expr::Block(b) => b.block.stmts.clone(),
+                                    other => vec![Stmt::Expr(other.clone(), Some(Default::default()))],
+                                };
+                                let all = splice(&body, rest, env)?;
+                                arms.push((p, self.block_tail(&all, &mut env_a)?));
+                            }
+                            return Ok(Seq { stmts: st, tail: Tail::Match(sc, arms) });
+                        }
+                        Expr::Block(b) if !self.muts.is_empty() => {
+                            let all = splice(&b.block.stmts, &stmts[i + 1..], env)?;
+                            let seq = self.block_tail(&all, env)?;
+                            st.extend(seq.stmts);
+                            return Ok(Seq { stmts: st, tail: seq.tail });
                         }
                         Expr::If(ei) if ei.else_branch.is_none() && block_returns(&ei.then_branch) => {
                             let (c, _) = self.cond(&ei.cond, env, &mut st)?;
@@ -249,6 +369,46 @@ impl<'a> FnTr<'a> {
                             let then_seq = self.block_tail(&ei.then_branch.stmts, &mut env_t)?;
                             let rest = self.block_tail(&stmts[i + 1..], env)?;
                             return Ok(Seq { stmts: st, tail: Tail::If(c, Box::new(then_seq), Box::new(rest)) });
+                        }
+                        // builder L: assignment to a field (chain) of a variable / through a `&mut` parameter
+                        Expr::Assign(a) if !matches!(&*a.left, Expr::Path(_)) => {
+                            let (root, fields, pty) = self.place(&a.left, env)?;
+                            let (term, _) = self.ex(&a.right, env, &mut st, Some(pty))?;
+                            st.push((lean_ident(&root), Rhs::Pure(update_term(&lean_ident(&root), &fields, &term))));
+                        }
+                        Expr::Binary(b) if is_assign_op(&b.op) && !matches!(&*b.left, Expr::Path(_)) => {
+                            let (root, fields, pty) = self.place(&b.left, env)?;
+                            let (term, _) = self.binop(&b.left, &assign_to_bin(&b.op), &b.right, env, &mut st, Some(pty))?;
+                            st.push((lean_ident(&root), Rhs::Pure(update_term(&lean_ident(&root), &fields, &term))));
+                        }
+                        // builder L: a call for its effect on `&mut` arguments
+                        Expr::MethodCall(_) | Expr::Call(_) if !self.muts.is_empty() => {
+                            let _ = self.ex(e, env, &mut st, None)?;
+                        }
+                        Expr::Match(m) if !self.muts.is_empty() => {
+                            let mut vars = assigned_roots(e, &self.muts);
+                            vars.retain(|v| env.contains_key(v));
+                            vars.sort();
+                            vars.dedup();
+                            if vars.is_empty() {
+                                return Err("statement-level match without assignments/return".into());
+                            }
+                            let tuple = tuple_of(&vars);
+                            let (sc, sty) = self.ex(&m.expr, env, &mut st, None)?;
+                            if matches!(sty, Ty::Int(_) | Ty::IntLit) || m.arms.iter().any(|a| a.guard.is_some()) {
+                                return Err("statement-level match: integer scrutinee / guards not supported".into());
+                            }
+                            let mut arms = vec![];
+                            for arm in &m.arms {
+                                let mut env_a = env.clone();
+                                let p = self.pat(&arm.pat, &sty, &mut env_a)?;
+                                let body: Vec<Stmt> = match &*arm.body {
+                                    Expr::Block(b) => b.block.stmts.clone(),
+                                    other => vec![Stmt::Expr(other.clone(), Some(Default::default()))],
+                                };
+                                arms.push((p, self.phi_branch(&body, &mut env_a, &tuple)?));
+                            }
+                            st.push((tuple, Rhs::Br(Box::new(Tail::Match(sc, arms)))));
                         }
                         Expr::Assign(a) => {
                             let name = match &*a.left {
@@ -270,7 +430,24 @@ impl<'a> FnTr<'a> {
                         Expr::If(ei) => {
                             // statement-level `if` that assigns to outer variables: phi on assigned vars
                             let mut vars = vec![];
-                            assigned_vars_if(ei, &mut vars);
+                            if self.muts.is_empty() && !has_let(&ei.cond) {
+                                assigned_vars_if(ei, &mut vars);
+                            } else {
+                                vars = assigned_roots(e, &self.muts);
+                                let mut cs = vec![];
+                                flatten_and(&ei.cond, &mut cs);
+                                for c in cs {
+                                    if let Expr::Let(l) = c {
+                                        if let Expr::MethodCall(mc) = &*l.expr {
+                                            if let Some(r) = place_root(&mc.receiver) {
+                                                if self.muts.contains(&r) {
+                                                    vars.push(r);
+                                                }
+                                            }
+                                        }
+                                    }
+                                }
+                            }
                             vars.retain(|v| env.contains_key(v));
                             vars.sort();
                             vars.dedup();
@@ -301,6 +478,27 @@ impl<'a> FnTr<'a> {
     }
 
     fn phi_if(&mut self, ei: &ExprIf, env: &mut Env, st: &mut Stmts, vars: &[String]) -> Res<Tail> {
+        if !self.muts.is_empty() || has_let(&ei.cond) {
+            // builder L: `if let` / let chains, branches in statement mode
+            let tuple = tuple_of(vars);
+            let else_seq = match &ei.else_branch {
+                None => Seq { stmts: vec![], tail: Tail::Val(tuple.clone()) },
+                Some((_, e)) => match &**e {
+                    Expr::Block(b) => {
+                        let mut env_e = env.clone();
+                        self.phi_branch(&b.block.stmts, &mut env_e, &tuple)?
+                    }
+                    Expr::If(inner) => {
+                        let mut st2 = vec![];
+                        let t = self.phi_if(inner, env, &mut st2, vars)?;
+                        Seq { stmts: st2, tail: t }
+                    }
+                    _ => return Err("bad else".into()),
+                },
+            };
+            let then_stmts = &ei.then_branch.stmts;
+            return self.if_chain(&ei.cond, env, &mut |this: &mut Self, env_t: &mut Env| this.phi_branch(then_stmts, env_t, &tuple), else_seq, st);
+        }
         let (c, _) = self.cond(&ei.cond, env, st)?;
         let tuple = if vars.len() == 1 {
             lean_ident(&vars[0])
@@ -330,6 +528,328 @@ impl<'a> FnTr<'a> {
         Ok(Tail::If(c, Box::new(then_seq), Box::new(else_seq)))
     }
 
+    /// builder L: a branch of a statement-level `if`/`match` (no `return` inside): its lets, ending in the
+    /// tuple of the variables the statement may assign
+    fn phi_branch(&mut self, stmts: &[Stmt], env: &mut Env, tuple: &str) -> Res<Seq> {
+        let saved = std::mem::replace(&mut self.ret, Ty::Unit);
+        let saved_muts = self.muts.clone();
+        if self.muts.is_empty() {
+            // statement mode for the last expression
+            self.muts = vec![String::new()];
+        }
+        let r = self.block_tail(stmts, env);
+        self.ret = saved;
+        self.muts = saved_muts;
+        let mut s = r?;
+        match &s.tail {
+            Tail::Val(v) if v == "()" => {
+                s.tail = Tail::Val(tuple.to_string());
+                Ok(s)
+            }
+            _ => Err("a branch of a statement-level if/match leaves the function or has a value".into()),
+        }
+    }
+
+    /// builder L: `if c1 && let P = e && c2 { then } else { else_seq }` — conditions evaluated left to
+    /// right, pattern bindings visible to the later conditions and to `then`
+    fn if_chain(&mut self, cond: &Expr, env: &Env, mk_then: &mut dyn FnMut(&mut Self, &mut Env) -> Res<Seq>, else_seq: Seq, st: &mut Stmts) -> Res<Tail> {
+        let mut conj: Vec<&Expr> = vec![];
+        if has_let(cond) {
+            flatten_and(cond, &mut conj);
+        } else {
+            conj.push(cond);
+        }
+        let mut env_t = env.clone();
+        let seq = self.if_chain_go(&conj, 0, &mut env_t, mk_then, &else_seq)?;
+        st.extend(seq.stmts);
+        Ok(seq.tail)
+    }
+
+    fn if_chain_go(&mut self, conj: &[&Expr], i: usize, env_t: &mut Env, mk_then: &mut dyn FnMut(&mut Self, &mut Env) -> Res<Seq>, else_seq: &Seq) -> Res<Seq> {
+        if i == conj.len() {
+            return mk_then(self, env_t);
+        }
+        let mut stc: Stmts = vec![];
+        match conj[i] {
+            Expr::Let(l) if self.lens_call(&l.expr, env_t)?.is_some() => {
+                // builder L: `let Some(x) = recv.lens()` where `lens(&mut self) -> Option<&mut T>`: `x` is a copy
+                // that is written back into `recv` after the branch
+                let (get, set, inner_ty, recv) = self.lens_call(&l.expr, env_t)?.unwrap();
+                let (root, fields, _) = self.place(recv, env_t)?;
+                let (rt, _) = self.ex(recv, env_t, &mut stc, None)?;
+                let sty = Ty::Opt(Box::new(inner_ty));
+                let p = self.pat(&l.pat, &sty, env_t)?;
+                let mut xs = vec![];
+                pat_idents(&l.pat, &mut xs);
+                if xs.len() != 1 {
+                    return Err("lens pattern must bind exactly one variable".into());
+                }
+                let x = lean_ident(&xs[0]);
+                let wb = (lean_ident(&root), Rhs::Pure(update_term(&lean_ident(&root), &fields, &format!("({} {} {})", set, paren(&rt), x))));
+                let mut mk2 = |this: &mut Self, env: &mut Env| -> Res<Seq> {
+                    let mut s = mk_then(this, env)?;
+                    s.stmts.push(wb.clone());
+                    Ok(s)
+                };
+                let inner = self.if_chain_go(conj, i + 1, env_t, &mut mk2, else_seq)?;
+                Ok(Seq { stmts: stc, tail: Tail::Match(format!("({} {})", get, paren(&rt)), vec![(p, inner), ("none".to_string(), else_seq.clone())]) })
+            }
+            Expr::Let(l) => {
+                let (sc, sty) = self.ex(&l.expr, env_t, &mut stc, None)?;
+                let p = self.pat(&l.pat, &sty, env_t)?;
+                let inner = self.if_chain_go(conj, i + 1, env_t, mk_then, else_seq)?;
+                let other = match &sty {
+                    Ty::Opt(_) => "none".to_string(),
+                    _ => "_".to_string(),
+                };
+                Ok(Seq { stmts: stc, tail: Tail::Match(sc, vec![(p, inner), (other, else_seq.clone())]) })
+            }
+            c => {
+                let (t, ty) = self.ex(c, env_t, &mut stc, Some(Ty::Bool))?;
+                if ty != Ty::Bool {
+                    return Err(format!("condition is not bool: {:?}", ty));
+                }
+                let inner = self.if_chain_go(conj, i + 1, env_t, mk_then, else_seq)?;
+                Ok(Seq { stmts: stc, tail: Tail::If(t, Box::new(inner), Box::new(else_seq.clone())) })
+            }
+        }
+    }
+
+    /// builder L: an assignable place: (root variable, field chain, type of the place)
+    fn place(&mut self, e: &Expr, env: &Env) -> Res<(String, Vec<String>, Ty)> {
+        match e {
+            Expr::Path(p) if p.path.segments.len() == 1 => {
+                let n = p.path.segments[0].ident.to_string();
+                let t = env.get(&n).cloned().ok_or(format!("assignment to unknown {}", n))?;
+                Ok((n, vec![], t))
+            }
+            Expr::Paren(p) => self.place(&p.expr, env),
+            Expr::Reference(r) => self.place(&r.expr, env),
+            Expr::Unary(u) if matches!(u.op, UnOp::Deref(_)) => self.place(&u.expr, env),
+            Expr::Field(f) => {
+                let (root, mut fields, bt) = self.place(&f.base, env)?;
+                match (&f.member, &bt) {
+                    (Member::Named(id), Ty::Named(sn)) => {
+                        let fs = self.reg.structs.get(sn).ok_or(format!("field access on non-struct {}", sn))?;
+                        let fname = id.to_string();
+                        let fty = fs.iter().find(|(n, _)| *n == fname).ok_or(format!("no field {} in {}", fname, sn))?.1.clone();
+                        fields.push(fname);
+                        Ok((root, fields, fty))
+                    }
+                    _ => Err(format!("unsupported place {}", quote::quote!(#e))),
+                }
+            }
+            _ => Err(format!("unsupported place {}", quote::quote!(#e))),
+        }
+    }
+
+    /// builder L: call of a translated function; `&mut` arguments are passed by value and written back
+    fn emit_call(&mut self, sig: &FnSig, actuals: &[&Expr], env: &mut Env, st: &mut Stmts) -> Res<(String, Ty)> {
+        let mut args = vec![];
+        let mut writebacks: Vec<(String, Vec<String>)> = vec![];
+        for (a, (pn, pt)) in actuals.iter().zip(sig.params.iter()) {
+            if sig.muts.contains(pn) {
+                let (root, fields, _) = self.place(a, env)?;
+                writebacks.push((root, fields));
+            }
+            let (t, _) = self.ex(a, env, st, Some(pt.clone()))?;
+            args.push(paren(&t));
+        }
+        let term = format!("{} {}", sig.lean, args.join(" "));
+        if writebacks.is_empty() {
+            return if sig.fallible { Ok((self.act(st, term), sig.ret.clone())) } else { Ok((format!("({})", term), sig.ret.clone())) };
+        }
+        let mut names = vec![];
+        let mut post: Stmts = vec![];
+        let rname = if sig.ret != Ty::Unit {
+            let n = self.fresh();
+            names.push(n.clone());
+            n
+        } else {
+            "()".to_string()
+        };
+        for (root, fields) in &writebacks {
+            if fields.is_empty() {
+                names.push(lean_ident(root));
+            } else {
+                let n = self.fresh();
+                post.push((lean_ident(root), Rhs::Pure(update_term(&lean_ident(root), fields, &n))));
+                names.push(n);
+            }
+        }
+        let pat = if names.len() == 1 { names[0].clone() } else { format!("({})", names.join(", ")) };
+        st.push((pat, if sig.fallible { Rhs::Act(term) } else { Rhs::Pure(term) }));
+        st.extend(post);
+        Ok((rname, sig.ret.clone()))
+    }
+
+    /// builder L: an inherent method of a modelled struct that is not listed in the unit (a helper the
+    /// selected method calls on `self`): translated on demand, emitted before the caller, unfolded by
+    /// `gen_unfold_helpers_<Unit>`
+    fn method_on_demand(&mut self, tn: &str, name: &str) -> Res<FnSig> {
+        let key = format!("{}::{}", tn, name);
+        if let Some(s) = self.reg.dyn_fns.borrow().get(&key) {
+            return Ok(s.clone());
+        }
+        if self.reg.dyn_stack.borrow().contains(&key) {
+            return Err(format!("recursive method {}", key));
+        }
+        let files = self.reg.files.clone().ok_or(format!("unknown method {}", key))?;
+        let (sig, body) = find_inherent_method(&files, tn, name).ok_or(format!("unknown method {}", key))?;
+        self.reg.dyn_stack.borrow_mut().push(key.clone());
+        let lean_name = format!("{}.{}", tn, name);
+        let mut sub = FnTr {
+            reg: self.reg,
+            self_ty: Some(tn.to_string()),
+            ret: Ty::Unit,
+            counter: 0,
+            fn_prefix: lean_name.clone(),
+            local_fns: HashMap::new(),
+            extra_defs: vec![],
+            muts: vec![],
+            tparams: HashMap::new(),
+        };
+        let r = sub.function(sig, body, &lean_name);
+        self.reg.dyn_stack.borrow_mut().pop();
+        let (text, fsig) = r.map_err(|e| format!("method {}: {}", key, e))?;
+        self.extra_defs.extend(sub.extra_defs);
+        self.extra_defs.push(text);
+        self.reg.helpers.borrow_mut().push(lean_name);
+        self.reg.dyn_fns.borrow_mut().insert(key, fsig.clone());
+        Ok(fsig)
+    }
+
+    /// builder L: is `e` a call `recv.m()` of a method `m(&mut self) -> Option<&mut T>` of a modelled struct?
+    /// Returns (getter, setter, T, receiver).
+    fn lens_call<'e>(&mut self, e: &'e Expr, env: &Env) -> Res<Option<(String, String, Ty, &'e Expr)>> {
+        let m = match e {
+            Expr::MethodCall(m) if m.args.is_empty() => m,
+            _ => return Ok(None),
+        };
+        let tn = match self.place(&m.receiver, env) {
+            Ok((_, _, Ty::Named(tn))) => tn,
+            _ => return Ok(None),
+        };
+        match self.lens_method(&tn, &m.method.to_string())? {
+            Some((g, s, t)) => Ok(Some((g, s, t, &*m.receiver))),
+            None => Ok(None),
+        }
+    }
+
+    /// builder L: `fn m(&mut self) -> Option<&mut T> { match &mut self.f { V(x) => Some(x), .. => None } }` as a
+    /// getter / setter pair (emitted once, as helpers)
+    fn lens_method(&mut self, tn: &str, name: &str) -> Res<Option<(String, String, Ty)>> {
+        let files = match self.reg.files.clone() {
+            Some(f) => f,
+            None => return Ok(None),
+        };
+        let (sig, body) = match find_inherent_method(&files, tn, name) {
+            Some(x) => x,
+            None => return Ok(None),
+        };
+        // return type Option<&mut T>
+        let inner = match &sig.output {
+            ReturnType::Type(_, t) => match &**t {
+                Type::Path(tp) if tp.path.segments.last().unwrap().ident == "Option" => match &tp.path.segments.last().unwrap().arguments {
+                    PathArguments::AngleBracketed(ab) => match ab.args.first() {
+                        Some(GenericArgument::Type(Type::Reference(r))) if r.mutability.is_some() => (*r.elem).clone(),
+                        _ => return Ok(None),
+                    },
+                    _ => return Ok(None),
+                },
+                _ => return Ok(None),
+            },
+            _ => return Ok(None),
+        };
+        let get = format!("{}.{}.get", tn, name);
+        let set = format!("{}.{}.set", tn, name);
+        let sub = FnTr { reg: self.reg, self_ty: Some(tn.to_string()), ret: Ty::Unit, counter: 0, fn_prefix: String::new(), local_fns: HashMap::new(), extra_defs: vec![], muts: vec![], tparams: HashMap::new() };
+        let inner_ty = sub.ty(&inner)?;
+        let key = format!("{}::{}#lens", tn, name);
+        if self.reg.dyn_fns.borrow().contains_key(&key) {
+            return Ok(Some((get, set, inner_ty)));
+        }
+        let m = match body.stmts.as_slice() {
+            [Stmt::Expr(Expr::Match(m), None)] => m,
+            _ => return Err(format!("lens {}::{}: body is not a single match", tn, name)),
+        };
+        let mut env: Env = HashMap::new();
+        env.insert("self".into(), Ty::Named(tn.to_string()));
+        let mut sub = sub;
+        let (root, fields, pty) = sub.place(&m.expr, &env)?;
+        let en = match &pty {
+            Ty::Named(n) => n.clone(),
+            _ => return Err(format!("lens {}::{}: scrutinee is not an enum", tn, name)),
+        };
+        let place_term = std::iter::once(lean_ident(&root)).chain(fields.iter().map(|f| lean_ident(f))).collect::<Vec<_>>().join(".");
+        let mut garms = vec![];
+        let mut sarms = vec![];
+        for arm in &m.arms {
+            if arm.guard.is_some() {
+                return Err(format!("lens {}::{}: guards not supported", tn, name));
+            }
+            // pattern
+            let (ptext_named, ptext_wild, variant, binder) = match &arm.pat {
+                Pat::TupleStruct(ts) if ts.elems.len() == 1 => {
+                    let v = ts.path.segments.last().unwrap().ident.to_string();
+                    let b = match &ts.elems[0] {
+                        Pat::Ident(i) => Some(i.ident.to_string()),
+                        _ => None,
+                    };
+                    (format!("{}.{} {}", en, lean_ident(&v), b.clone().map(|b| lean_ident(&b)).unwrap_or("_".into())), format!("{}.{} _", en, lean_ident(&v)), Some(v), b)
+                }
+                Pat::Path(pp) => {
+                    let v = pp.path.segments.last().unwrap().ident.to_string();
+                    (format!("{}.{}", en, lean_ident(&v)), format!("{}.{}", en, lean_ident(&v)), None, None)
+                }
+                Pat::Ident(i) if i.subpat.is_none() && self.reg.enums.get(&en).map(|v| v.iter().any(|(n, _)| *n == i.ident.to_string())).unwrap_or(false) => {
+                    let v = i.ident.to_string();
+                    (format!("{}.{}", en, lean_ident(&v)), format!("{}.{}", en, lean_ident(&v)), None, None)
+                }
+                Pat::Wild(_) => ("_".to_string(), "_".to_string(), None, None),
+                other => return Err(format!("lens {}::{}: unsupported pattern {}", tn, name, quote::quote!(#other))),
+            };
+            // body: Some(binder) | None
+            let body_e = match &*arm.body {
+                Expr::Block(b) if b.block.stmts.len() == 1 => match &b.block.stmts[0] {
+                    Stmt::Expr(e, None) => e.clone(),
+                    _ => return Err(format!("lens {}::{}: unsupported arm body", tn, name)),
+                },
+                e => e.clone(),
+            };
+            let some_of: Option<String> = match &body_e {
+                Expr::Call(c) if matches!(&*c.func, Expr::Path(p) if p.path.is_ident("Some")) && c.args.len() == 1 => match &c.args[0] {
+                    Expr::Path(p) if p.path.segments.len() == 1 => Some(p.path.segments[0].ident.to_string()),
+                    _ => return Err(format!("lens {}::{}: `Some` of something other than the bound variable", tn, name)),
+                },
+                Expr::Path(p) if p.path.is_ident("None") => None,
+                _ => return Err(format!("lens {}::{}: arm is neither `Some(x)` nor `None`", tn, name)),
+            };
+            match some_of {
+                Some(x) => {
+                    if binder.as_deref() != Some(x.as_str()) {
+                        return Err(format!("lens {}::{}: `Some({})` is not the variable the pattern binds", tn, name, x));
+                    }
+                    let v = variant.unwrap();
+                    garms.push(format!("  | {} => some {}", ptext_named, lean_ident(&x)));
+                    sarms.push(format!("  | {} => {}", ptext_wild, update_term(&lean_ident(&root), &fields, &format!("({}.{} v)", en, lean_ident(&v)))));
+                }
+                None => {
+                    garms.push(format!("  | {} => none", ptext_wild));
+                    sarms.push(format!("  | {} => {}", ptext_wild, lean_ident(&root)));
+                }
+            }
+        }
+        let gtext = format!("/-- `{}::{}` (`Option<&mut _>`), read side -/\ndef {} (self : {}) : Option {} :=\n  match {} with\n{}\n", tn, name, get, tn, inner_ty.lean(), place_term, garms.join("\n"));
+        let stext = format!("/-- `{}::{}` (`Option<&mut _>`), write-back side: stores `v` where the reference pointed -/\ndef {} (self : {}) (v : {}) : {} :=\n  match {} with\n{}\n", tn, name, set, tn, inner_ty.lean(), tn, place_term, sarms.join("\n"));
+        self.extra_defs.push(gtext);
+        self.extra_defs.push(stext);
+        self.reg.helpers.borrow_mut().push(get.clone());
+        self.reg.helpers.borrow_mut().push(set.clone());
+        self.reg.dyn_fns.borrow_mut().insert(key, FnSig { lean: get.clone(), params: vec![], ret: Ty::Unit, fallible: false, muts: vec![] });
+        Ok(Some((get, set, inner_ty)))
+    }
+
     fn nested_fn(&mut self, f: &ItemFn) -> Res<()> {
         let name = f.sig.ident.to_string();
         let mut sub = FnTr {
@@ -340,6 +860,8 @@ impl<'a> FnTr<'a> {
             fn_prefix: self.fn_prefix.clone(),
             local_fns: self.local_fns.clone(),
             extra_defs: vec![],
+            muts: vec![],
+            tparams: HashMap::new(),
         };
         let lean_name = format!("{}.{}", self.fn_prefix, name);
         let (text, sig) = sub.function(&f.sig, &f.block, &lean_name)?;
@@ -354,20 +876,45 @@ impl<'a> FnTr<'a> {
     pub fn function(&mut self, sig: &Signature, body: &Block, lean_name: &str) -> Res<(String, FnSig)> {
         let mut env: Env = HashMap::new();
         let mut params = vec![];
+        self.muts = vec![];
+        // builder L: `M: Trait` where the unit models `Trait` as a struct of its observable methods
+        for gp in &sig.generics.params {
+            if let GenericParam::Type(tp) = gp {
+                for b in &tp.bounds {
+                    if let TypeParamBound::Trait(tb) = b {
+                        let bn = tb.path.segments.last().unwrap().ident.to_string();
+                        if self.reg.structs.contains_key(&bn) {
+                            self.tparams.insert(tp.ident.to_string(), Ty::Named(bn));
+                        }
+                    }
+                }
+            }
+        }
         for a in &sig.inputs {
             match a {
-                FnArg::Receiver(_) => {
+                FnArg::Receiver(r) => {
                     let t = Ty::Named(self.self_ty.clone().ok_or("self outside impl")?);
                     env.insert("self".into(), t.clone());
                     params.push(("self".to_string(), t));
+                    if r.reference.is_some() && r.mutability.is_some() {
+                        self.muts.push("self".to_string());
+                    }
                 }
                 FnArg::Typed(pt) => {
+                    if cfg_disabled(&pt.attrs) {
+                        continue;
+                    }
                     let name = match &*pt.pat {
                         Pat::Ident(i) => i.ident.to_string(),
                         Pat::Wild(_) => "_".to_string(),
                         _ => return Err("unsupported param pattern".into()),
                     };
                     let t = self.ty(&pt.ty)?;
+                    if let Type::Reference(rf) = &*pt.ty {
+                        if rf.mutability.is_some() {
+                            self.muts.push(name.clone());
+                        }
+                    }
                     env.insert(name.clone(), t.clone());
                     params.push((name, t));
                 }
@@ -379,7 +926,16 @@ impl<'a> FnTr<'a> {
         };
         self.ret = ret.clone();
         self.fn_prefix = lean_name.to_string();
-        let seq = self.block_tail(&body.stmts, &mut env)?;
+        let mut seq = self.block_tail(&body.stmts, &mut env)?;
+        // builder L (state passing): every exit returns the value together with the `&mut` parameters
+        let mut_tys: Vec<Ty> = self.muts.iter().map(|m| params.iter().find(|(n, _)| n == m).unwrap().1.clone()).collect();
+        let rust_ret = ret.clone();
+        let ret = ret_shape(&ret, &mut_tys);
+        if !self.muts.is_empty() {
+            let muts = self.muts.clone();
+            let unit = rust_ret == Ty::Unit;
+            wrap_exits(&mut seq, &mut self.counter, &|v: &str| exit_term(v, unit, &muts));
+        }
         let fallible = seq.fallible();
         let mut out = String::new();
         let ps = params
@@ -395,7 +951,7 @@ impl<'a> FnTr<'a> {
             render_p(&seq, 1, &mut out);
         }
         out.push('\n');
-        Ok((out, FnSig { lean: lean_name.to_string(), params, ret, fallible }))
+        Ok((out, FnSig { lean: lean_name.to_string(), params, ret: rust_ret, fallible, muts: self.muts.clone() }))
     }
 
     fn tail_expr(&mut self, e: &Expr, env: &mut Env, st: &mut Stmts) -> Res<Tail> {
@@ -406,6 +962,36 @@ impl<'a> FnTr<'a> {
     /// Expression whose value is the value of the enclosing seq.
     fn tail_expr_ty(&mut self, e: &Expr, env: &mut Env, st: &mut Stmts, expect: Option<Ty>) -> Res<(Tail, Ty)> {
         match e {
+            Expr::If(ei) if has_let(&ei.cond) => {
+                // builder L: `if let` / let chain in value position
+                let else_e = &ei.else_branch.as_ref().ok_or("if without else in value position")?.1;
+                let mut env_e = env.clone();
+                let (b, tb) = match &**else_e {
+                    Expr::Block(b) => self.block_val(&b.block.stmts, &mut env_e, expect.clone())?,
+                    other => {
+                        let mut st2 = vec![];
+                        let (t, ty) = self.tail_expr_ty(other, &mut env_e, &mut st2, expect.clone())?;
+                        (Seq { stmts: st2, tail: t }, ty)
+                    }
+                };
+                let mut ta: Option<Ty> = None;
+                let then_stmts = &ei.then_branch.stmts;
+                let ex2 = expect.clone();
+                let tail = self.if_chain(
+                    &ei.cond,
+                    env,
+                    &mut |this: &mut Self, env_t: &mut Env| {
+                        let (a, t) = this.block_val(then_stmts, env_t, ex2.clone())?;
+                        ta = Some(t);
+                        Ok(a)
+                    },
+                    b,
+                    st,
+                )?;
+                let ta = ta.ok_or("if-let: then branch not translated")?;
+                let ty = unify(&ta, &tb).or_else(|_| unify_opt(&ta, &tb, &expect))?;
+                Ok((tail, ty))
+            }
             Expr::If(ei) => {
                 let (c, _) = self.cond(&ei.cond, env, st)?;
                 let mut env_t = env.clone();
@@ -1159,6 +1745,25 @@ impl<'a> FnTr<'a> {
             let t = unify(&ta, &tb)?;
             return Ok((format!("({} {} {})", segs[segs.len() - 1], paren(&a), paren(&b)), t));
         }
+        // builder L: `heapless::Vec::new()`
+        if segs.len() >= 2 && segs[segs.len() - 2] == "Vec" && segs[segs.len() - 1] == "new" && c.args.is_empty() {
+            return match &expect {
+                Some(t @ Ty::HVec(..)) => Ok(("[]".into(), t.clone())),
+                _ => Err("Vec::new() without a known type".into()),
+            };
+        }
+        // builder L: constructor of an enum variant with a payload
+        if segs.len() >= 2 {
+            let tyn = if segs[segs.len() - 2] == "Self" { self.self_ty.clone().unwrap_or_default() } else { segs[segs.len() - 2].clone() };
+            if let Some(tys) = self.reg.enum_data.get(&tyn).and_then(|vs| vs.iter().find(|(v, _)| *v == segs[segs.len() - 1])).map(|(_, t)| t.clone()) {
+                let mut args = vec![];
+                for (a, t) in c.args.iter().zip(tys.iter()) {
+                    let (x, _) = self.ex(a, env, st, Some(t.clone()))?;
+                    args.push(paren(&x));
+                }
+                return Ok((format!("({}.{} {})", tyn, lean_ident(&segs[segs.len() - 1]), args.join(" ")), Ty::Named(tyn)));
+            }
+        }
         // local nested fn, then registry
         let sig = if segs.len() == 1 {
             self.local_fns.get(&segs[0]).cloned().or_else(|| self.reg.fns.get(&segs[0]).cloned())
@@ -1167,6 +1772,10 @@ impl<'a> FnTr<'a> {
             self.reg.fns.get(&format!("{}::{}", tyn, segs[segs.len() - 1])).cloned()
         };
         let sig = sig.ok_or(format!("call of unknown function {}", name))?;
+        if !sig.muts.is_empty() {
+            let actuals: Vec<&Expr> = c.args.iter().collect();
+            return self.emit_call(&sig, &actuals, env, st);
+        }
         let mut args = vec![];
         for (a, (_, pt)) in c.args.iter().zip(sig.params.iter()) {
             let (t, _) = self.ex(a, env, st, Some(pt.clone()))?;
@@ -1271,6 +1880,11 @@ impl<'a> FnTr<'a> {
                         Ok((format!("(Rt.ck .{} ({} {} {}))", t, paren(&r), o, a), Ty::Opt(Box::new(ity))))
                     }
                     "abs" => Ok((self.act(st, format!("Rt.ck .{} (Int.natAbs {} : Int)", t, paren(&r))), ity)),
+                    // builder L: unsigned `is_multiple_of` (never panics: `x.is_multiple_of(0)` is `x == 0`)
+                    "is_multiple_of" if !t.starts_with('i') => {
+                        let a = arg(self, 0, st, Some(ity.clone()))?;
+                        Ok((format!("(Rt.isMultipleOf {} {})", paren(&r), a), Ty::Bool))
+                    }
                     "into" => match &expect {
                         Some(Ty::Int(_)) => Ok((r, expect.unwrap())),
                         _ => Err("`.into()` with unknown target".into()),
@@ -1347,7 +1961,16 @@ impl<'a> FnTr<'a> {
                     return Err(format!("`.into()` from {} with unknown target", tn));
                 }
                 let key = format!("{}::{}", tn, name);
-                let sig = self.reg.fns.get(&key).cloned().ok_or(format!("unknown method {}", key))?;
+                let sig = match self.reg.fns.get(&key).cloned() {
+                    Some(s) => s,
+                    None => self.method_on_demand(tn, &name)?,
+                };
+                if !sig.muts.is_empty() {
+                    let mut actuals: Vec<&Expr> = vec![&*m.receiver];
+                    actuals.extend(m.args.iter());
+                    // the receiver was translated once already (pure: a place); translate the call afresh
+                    return self.emit_call(&sig, &actuals, env, st);
+                }
                 let mut args = vec![paren(&r)];
                 for (a, (_, pt)) in m.args.iter().zip(sig.params.iter().skip(1)) {
                     let (t, _) = self.ex(a, env, st, Some(pt.clone()))?;
@@ -1379,6 +2002,37 @@ impl<'a> FnTr<'a> {
                     Ok((format!("(List.find? (fun {} => {}) {})", pn, ct, paren(&r)), Ty::Opt(el.clone())))
                 }
                 _ => Err(format!("unsupported slice method {}", name)),
+            },
+            // builder L: heapless::Vec<T, CAP> as a list with a capacity; mutators write the receiver place back
+            Ty::HVec(el, cap) => match name.as_str() {
+                "len" => Ok((format!("(Int.ofNat {}.length)", paren(&r)), Ty::Int("usize"))),
+                "is_empty" => Ok((format!("{}.isEmpty", paren(&r)), Ty::Bool)),
+                "iter" | "as_slice" => Ok((r, Ty::Arr(el.clone()))),
+                "clear" | "push" | "extend_from_slice" => {
+                    let (root, fields, _) = self.place(&m.receiver, env)?;
+                    let (res, rty, newv) = match name.as_str() {
+                        "clear" => ("()".to_string(), Ty::Unit, "[]".to_string()),
+                        "push" => {
+                            let (a, _) = self.ex(&m.args[0], env, st, Some((**el).clone()))?;
+                            (format!("(Rt.hvPushOk {} {})", paren(cap), paren(&r)), Ty::Bool, format!("(Rt.hvPush {} {} {})", paren(cap), paren(&r), paren(&a)))
+                        }
+                        _ => {
+                            let (a, _) = self.ex(&m.args[0], env, st, Some(Ty::Arr(el.clone())))?;
+                            (format!("(Rt.hvExtendOk {} {} {})", paren(cap), paren(&r), paren(&a)), Ty::Opt(Box::new(Ty::Unit)), format!("(Rt.hvExtend {} {} {})", paren(cap), paren(&r), paren(&a)))
+                        }
+                    };
+                    // the result is computed from the old value, then the place is updated
+                    let rn = if rty == Ty::Unit {
+                        "()".to_string()
+                    } else {
+                        let n = self.fresh();
+                        st.push((n.clone(), Rhs::Pure(res)));
+                        n
+                    };
+                    st.push((lean_ident(&root), Rhs::Pure(update_term(&lean_ident(&root), &fields, &newv))));
+                    Ok((rn, rty))
+                }
+                _ => Err(format!("unsupported heapless::Vec method {}", name)),
             },
             Ty::Bool => Err(format!("unsupported bool method {}", name)),
             _ => Err(format!("unsupported method {} on {:?}", name, tr)),
@@ -1476,4 +2130,271 @@ fn contains_return(e: &Expr) -> bool {
     let mut v = V(false);
     syn::visit::visit_expr(&mut v, e);
     v.0
+}
+
+// ------------------------------------------------------------------------------------------------
+// builder L: state-passing translation of `&mut` parameters
+
+/// the Lean result type of a function with `&mut` parameters of the given types
+pub fn ret_shape(ret: &Ty, muts: &[Ty]) -> Ty {
+    if muts.is_empty() {
+        ret.clone()
+    } else if *ret == Ty::Unit {
+        if muts.len() == 1 {
+            muts[0].clone()
+        } else {
+            Ty::Tuple(muts.to_vec())
+        }
+    } else {
+        let mut v = vec![ret.clone()];
+        v.extend(muts.iter().cloned());
+        Ty::Tuple(v)
+    }
+}
+
+fn exit_term(v: &str, unit: bool, muts: &[String]) -> String {
+    let ms: Vec<String> = muts.iter().map(|m| lean_ident(m)).collect();
+    if unit {
+        if ms.len() == 1 {
+            ms[0].clone()
+        } else {
+            format!("({})", ms.join(", "))
+        }
+    } else {
+        format!("({}, {})", v, ms.join(", "))
+    }
+}
+
+/// rewrite every exit value of a function-level sequence
+fn wrap_exits(seq: &mut Seq, counter: &mut usize, f: &dyn Fn(&str) -> String) {
+    match &mut seq.tail {
+        Tail::Val(v) => *v = f(v),
+        Tail::ActVal(v) => {
+            *counter += 1;
+            let n = format!("t{}", counter);
+            seq.stmts.push((n.clone(), Rhs::Act(v.clone())));
+            seq.tail = Tail::Val(f(&n));
+        }
+        Tail::If(_, a, b) => {
+            wrap_exits(a, counter, f);
+            wrap_exits(b, counter, f);
+        }
+        Tail::Match(_, arms) => {
+            for (_, s) in arms.iter_mut() {
+                wrap_exits(s, counter, f);
+            }
+        }
+        Tail::Panic => {}
+    }
+}
+
+/// `inner` followed by `rest` as one statement list; refuses when `inner` declares a local that
+/// shadows a variable in scope (it would be visible to `rest`)
+fn splice(inner: &[Stmt], rest: &[Stmt], env: &Env) -> Res<Vec<Stmt>> {
+    for s in inner {
+        if let Stmt::Local(l) = s {
+            let mut names = vec![];
+            pat_idents(&l.pat, &mut names);
+            if let Some(n) = names.iter().find(|n| env.contains_key(*n)) {
+                if !rest.is_empty() {
+                    return Err(format!("a branch that is continued by the rest of the block re-declares `{}`", n));
+                }
+            }
+        }
+    }
+    let mut v = inner.to_vec();
+    // an expression statement without `;` in the middle of the spliced list gets one
+    if !rest.is_empty() {
+        if let Some(Stmt::Expr(e, None)) = v.last().cloned() {
+            let k = v.len() - 1;
+            v[k] = Stmt::Expr(e, Some(Default::default()));
+        }
+    }
+    v.extend(rest.iter().cloned());
+    Ok(v)
+}
+
+fn pat_idents(p: &Pat, out: &mut Vec<String>) {
+    match p {
+        Pat::Ident(i) => out.push(i.ident.to_string()),
+        Pat::Type(t) => pat_idents(&t.pat, out),
+        Pat::Reference(r) => pat_idents(&r.pat, out),
+        Pat::Paren(pp) => pat_idents(&pp.pat, out),
+        Pat::Tuple(t) => t.elems.iter().for_each(|e| pat_idents(e, out)),
+        Pat::TupleStruct(t) => t.elems.iter().for_each(|e| pat_idents(e, out)),
+        _ => {}
+    }
+}
+
+/// `{ base with f1 := { base.f1 with f2 := value } }`
+pub fn update_term(base: &str, fields: &[String], value: &str) -> String {
+    match fields.split_first() {
+        None => value.to_string(),
+        Some((f, rest)) => {
+            let f = lean_ident(f);
+            format!("{{ {} with {} := {} }}", base, f, update_term(&format!("{}.{}", base, f), rest, value))
+        }
+    }
+}
+
+fn tuple_of(vars: &[String]) -> String {
+    if vars.len() == 1 {
+        lean_ident(&vars[0])
+    } else {
+        format!("({})", vars.iter().map(|v| lean_ident(v)).collect::<Vec<_>>().join(", "))
+    }
+}
+
+pub fn has_let(e: &Expr) -> bool {
+    match e {
+        Expr::Let(_) => true,
+        Expr::Binary(b) if matches!(b.op, BinOp::And(_)) => has_let(&b.left) || has_let(&b.right),
+        Expr::Paren(p) => has_let(&p.expr),
+        _ => false,
+    }
+}
+
+fn flatten_and<'e>(e: &'e Expr, out: &mut Vec<&'e Expr>) {
+    match e {
+        Expr::Binary(b) if matches!(b.op, BinOp::And(_)) => {
+            flatten_and(&b.left, out);
+            flatten_and(&b.right, out);
+        }
+        Expr::Paren(p) if has_let(&p.expr) => flatten_and(&p.expr, out),
+        _ => out.push(e),
+    }
+}
+
+fn place_root(e: &Expr) -> Option<String> {
+    match e {
+        Expr::Path(p) if p.path.segments.len() == 1 => Some(p.path.segments[0].ident.to_string()),
+        Expr::Field(f) => place_root(&f.base),
+        Expr::Paren(p) => place_root(&p.expr),
+        Expr::Reference(r) => place_root(&r.expr),
+        Expr::Unary(u) if matches!(u.op, UnOp::Deref(_)) => place_root(&u.expr),
+        Expr::Index(i) => place_root(&i.expr),
+        _ => None,
+    }
+}
+
+/// variables a statement may assign: targets of assignments anywhere inside, and — over-approximated —
+/// every `&mut` parameter that is the receiver or an argument of a call
+fn assigned_roots(e: &Expr, muts: &[String]) -> Vec<String> {
+    struct V<'m> {
+        muts: &'m [String],
+        out: Vec<String>,
+    }
+    impl<'ast, 'm> syn::visit::Visit<'ast> for V<'m> {
+        fn visit_expr_assign(&mut self, a: &'ast ExprAssign) {
+            if let Some(r) = place_root(&a.left) {
+                self.out.push(r);
+            }
+            syn::visit::visit_expr_assign(self, a);
+        }
+        fn visit_expr_binary(&mut self, b: &'ast ExprBinary) {
+            if is_assign_op(&b.op) {
+                if let Some(r) = place_root(&b.left) {
+                    self.out.push(r);
+                }
+            }
+            syn::visit::visit_expr_binary(self, b);
+        }
+        fn visit_expr_method_call(&mut self, m: &'ast ExprMethodCall) {
+            for a in std::iter::once(&*m.receiver).chain(m.args.iter()) {
+                if let Some(r) = place_root(a) {
+                    if self.muts.contains(&r) {
+                        self.out.push(r);
+                    }
+                }
+            }
+            syn::visit::visit_expr_method_call(self, m);
+        }
+        fn visit_expr_call(&mut self, c: &'ast ExprCall) {
+            for a in c.args.iter() {
+                if let Some(r) = place_root(a) {
+                    if self.muts.contains(&r) || matches!(a, Expr::Reference(rf) if rf.mutability.is_some()) {
+                        self.out.push(r);
+                    }
+                }
+            }
+            syn::visit::visit_expr_call(self, c);
+        }
+        fn visit_expr_closure(&mut self, _: &'ast ExprClosure) {}
+        fn visit_item_fn(&mut self, _: &'ast ItemFn) {}
+    }
+    let mut v = V { muts, out: vec![] };
+    syn::visit::visit_expr(&mut v, e);
+    v.out
+}
+
+/// items of cargo features the verification harness does not enable
+pub fn cfg_disabled(attrs: &[Attribute]) -> bool {
+    use quote::ToTokens;
+    attrs.iter().any(|a| {
+        if !a.path().is_ident("cfg") {
+            return false;
+        }
+        let s: String = a.meta.to_token_stream().to_string().chars().filter(|c| !c.is_whitespace()).collect();
+        ["certification", "multicast", "serde", "defmt-03"].iter().any(|f| s == format!("cfg(feature=\"{}\")", f))
+    })
+}
+
+fn expr_attrs(e: &Expr) -> &[Attribute] {
+    match e {
+        Expr::If(x) => &x.attrs,
+        Expr::Match(x) => &x.attrs,
+        Expr::MethodCall(x) => &x.attrs,
+        Expr::Call(x) => &x.attrs,
+        Expr::Assign(x) => &x.attrs,
+        Expr::Binary(x) => &x.attrs,
+        Expr::Block(x) => &x.attrs,
+        Expr::Macro(x) => &x.attrs,
+        Expr::Return(x) => &x.attrs,
+        _ => &[],
+    }
+}
+
+fn stmt_cfg_disabled(s: &Stmt) -> bool {
+    match s {
+        Stmt::Local(l) => cfg_disabled(&l.attrs),
+        Stmt::Expr(e, _) => cfg_disabled(expr_attrs(e)),
+        Stmt::Macro(m) => cfg_disabled(&m.attrs),
+        Stmt::Item(_) => false,
+    }
+}
+
+/// inherent (non-trait) method `name` of type `tn` in the unit's files
+pub fn find_inherent_method<'f>(files: &'f [File], tn: &str, name: &str) -> Option<(&'f Signature, &'f Block)> {
+    fn walk<'f>(items: &'f [Item], tn: &str, name: &str) -> Option<(&'f Signature, &'f Block)> {
+        for it in items {
+            match it {
+                Item::Impl(im) if im.trait_.is_none() => {
+                    let self_name = match &*im.self_ty {
+                        Type::Path(p) => p.path.segments.last().map(|s| s.ident.to_string()),
+                        _ => None,
+                    };
+                    if self_name.as_deref() != Some(tn) {
+                        continue;
+                    }
+                    for ii in &im.items {
+                        if let ImplItem::Fn(f) = ii {
+                            if f.sig.ident == name && !cfg_disabled(&f.attrs) {
+                                return Some((&f.sig, &f.block));
+                            }
+                        }
+                    }
+                }
+                Item::Mod(m) if m.ident != "tests" && m.ident != "test" => {
+                    if let Some((_, items)) = &m.content {
+                        if let Some(r) = walk(items, tn, name) {
+                            return Some(r);
+                        }
+                    }
+                }
+                _ => {}
+            }
+        }
+        None
+    }
+    files.iter().find_map(|f| walk(&f.items, tn, name))
 }
